@@ -130,9 +130,6 @@ def run(tier: str, seed: int, replay=None) -> int:
     diff_fields = 0
     for m, r in zip(metas, mres):
         rep.count("meta:" + json.dumps(m), True)
-        if "fatal" not in r and r["fresh"] != r["after"] and dead_source_class(m) and dead_source_match(m, r):
-            inst["C14-b"] = inst.get("C14-b", 0) + 1
-            continue
         if "fatal" in r or r["fresh"] != r["after"]:
             nbad += 1
             if nbad <= 3:
